@@ -69,3 +69,31 @@ package ecdsa
 //@ ensures[equation] isnil(result1) ==> result0 == (bigmod(toint(ux * inv(uz * uz)), q) == r)
 //@ modifies nothing
 //@ end
+
+// Key codecs. SetBytes of a key reads the key from the front of a buffer that may be longer (it reports how many
+// bytes it consumed): total on every buffer, refuses exactly the buffers shorter than the key, accepts only if the
+// point decoder (which tests curve and subgroup membership: C07) accepted the first sizePublicKey bytes, reports the
+// size of the key, and the private scalar is the next sizeFr bytes, unchanged.
+
+//@ func PublicKey.SetBytes
+//@ option nomerge
+//@ option opaque-calls
+//@ ghost decoded = false
+//@ cut after call SetBytes #1
+//@ + ghost decoded = isnil(callresult1) && same(callarg0, &pk.A) && len(callarg1) == sizePublicKey
+//@ ensures[short] len(buf) < sizePublicKey ==> !isnil(result1) && result0 == 0
+//@ ensures[accept] isnil(result1) ==> decoded && result0 == sizePublicKey
+//@ modifies pk
+//@ end
+
+//@ func PrivateKey.SetBytes
+//@ option nomerge
+//@ option opaque-calls
+//@ ghost decoded = false
+//@ cut after call SetBytes #1
+//@ + ghost decoded = isnil(callresult1) && same(callarg0, &privKey.PublicKey.A) && len(callarg1) == sizePublicKey
+//@ ensures[short] len(buf) < sizePrivateKey ==> !isnil(result1) && result0 == 0
+//@ ensures[accept] isnil(result1) ==> decoded && result0 == sizePrivateKey
+//@ ensures[scalar] isnil(result1) ==> forall(j, 0, sizeFr, privKey.scalar[j] == buf[sizePublicKey + j])
+//@ modifies privKey
+//@ end
